@@ -541,6 +541,14 @@ Array<int> String::chars() const
 
 void String::assign(const char* b, int n)
 {
+	char* s0 = str();
+	if (b >= s0 && b <= s0 + _len) // the source is part of this string
+	{
+		memmove(s0, b, n);
+		s0[n] = '\0';
+		_len = n;
+		return;
+	}
 	resize(n, false);
 	char* s = str();
 	memcpy(s, b, _len);
@@ -559,11 +567,15 @@ String String::concat(const char* b, int n) const
 
 void String::append(const char* b, int n)
 {
+	char* s0 = str();
+	int k = (b >= s0 && b <= s0 + _len) ? int(b - s0) : -1; // the source is part of this string
 	if(_len+n >= _size)
 		resize(_len+n);
 	else
 		_len += n;
 	char* s = str();
+	if (k >= 0)
+		b = s + k;
 	memcpy(s+_len-n, b, n);
 	s[_len] = '\0';
 }
